@@ -176,9 +176,13 @@ def _gen_droplet_tracker(rng, grid, collection):
             o["perturbation_modes"] = rng.choice([1, 2])
             o["refine_args"] = dict(o["refine_args"] or {})
             o["refine_args"].setdefault("least_squares_params", {"max_nfev": 10})
-    elif rng.random() < 0.1:
-        # options that only matter with refine=True must still be forwarded consistently
-        o["refine_args"] = {"tolerance": 1e-2}
+    else:
+        # options documented as "only has an effect if refine=True" must still be forwarded:
+        # modes > 0 changes the droplet class even without refinement
+        if rng.random() < 0.15:
+            o["refine_args"] = {"tolerance": 1e-2}
+        if dim in (2, 3) and rng.random() < 0.3:
+            o["perturbation_modes"] = rng.choice([1, 2, 3])
     if rng.random() < 0.2:
         o["prefill"] = rng.randint(1, 3)
     if collection:
@@ -218,7 +222,7 @@ def generate(streams: Streams, tier: str, index: int) -> dict:
     else:
         grid = _gen_grid(rng)
         frames = [_gen_frame(rng, grid) for _ in range(rng.choice([1, 2, 3, 4, 5, 6, 8]))]
-    t0 = rng.choice([0, 0, 0, 2.5, -1.0])
+    t0 = rng.choice([0, 0, 0, 2.5, -1.0, -2.0, 1e6])
     dt = rng.choice([0.5, 1.0, 0.25]) if mode != "A" else 0.01
     n_steps = rng.randint(1, 24) if mode != "A" else rng.choice([60, 120, 200])
     t1 = t0 + n_steps * dt
